@@ -1,6 +1,7 @@
 package litefs
 
 import (
+	"bytes"
 	"context"
 	"encoding/binary"
 	"fmt"
@@ -32,6 +33,18 @@ type Stream interface {
 
 	// ClusterID of the primary node.
 	ClusterID() string
+}
+
+// readBytesN reads exactly n bytes from r. The buffer grows as data arrives so
+// that a bogus length prefix cannot force a huge allocation up front.
+func readBytesN(r io.Reader, n uint32) ([]byte, error) {
+	var buf bytes.Buffer
+	if _, err := io.CopyN(&buf, r, int64(n)); err == io.EOF {
+		return nil, io.ErrUnexpectedEOF
+	} else if err != nil {
+		return nil, err
+	}
+	return buf.Bytes(), nil
 }
 
 type StreamFrameType uint32
@@ -120,10 +133,8 @@ func (f *LTXStreamFrame) ReadFrom(r io.Reader) (int64, error) {
 		return 0, err
 	}
 
-	name := make([]byte, nameN)
-	if _, err := io.ReadFull(r, name); err == io.EOF {
-		return 0, io.ErrUnexpectedEOF
-	} else if err != nil {
+	name, err := readBytesN(r, nameN)
+	if err != nil {
 		return 0, err
 	}
 	f.Name = string(name)
@@ -173,10 +184,8 @@ func (f *DropDBStreamFrame) ReadFrom(r io.Reader) (int64, error) {
 		return 0, err
 	}
 
-	name := make([]byte, nameN)
-	if _, err := io.ReadFull(r, name); err == io.EOF {
-		return 0, io.ErrUnexpectedEOF
-	} else if err != nil {
+	name, err := readBytesN(r, nameN)
+	if err != nil {
 		return 0, err
 	}
 	f.Name = string(name)
@@ -208,10 +217,8 @@ func (f *HandoffStreamFrame) ReadFrom(r io.Reader) (int64, error) {
 		return 0, err
 	}
 
-	leaseID := make([]byte, n)
-	if _, err := io.ReadFull(r, leaseID); err == io.EOF {
-		return 0, io.ErrUnexpectedEOF
-	} else if err != nil {
+	leaseID, err := readBytesN(r, n)
+	if err != nil {
 		return 0, err
 	}
 	f.LeaseID = string(leaseID)
@@ -253,10 +260,8 @@ func (f *HWMStreamFrame) ReadFrom(r io.Reader) (int64, error) {
 		return 0, err
 	}
 
-	name := make([]byte, nameN)
-	if _, err := io.ReadFull(r, name); err == io.EOF {
-		return 0, io.ErrUnexpectedEOF
-	} else if err != nil {
+	name, err := readBytesN(r, nameN)
+	if err != nil {
 		return 0, err
 	}
 	f.Name = string(name)
